@@ -1146,3 +1146,416 @@ theorem IX.prim {st st' : State} (w : WF st) (h : IX st) (p : Prim st st') : IX 
 
 
 end SigModel.Bus
+
+namespace SigModel.Bus
+open SigModel.Generated.Bus
+
+/-! ### no duplicates, order -/
+
+/-- The three ways an earlier delivery `r` relates to the message `i` a subscriber `k` is about to hand to
+listener `l` (same subject): through `k` itself it is older; through an earlier subscriber it is older;
+a later subscriber exists only when `k` is closed. -/
+theorem recv_vs_pending {st : State} (w : WF st) (h : IX st) {k l i : Nat} (hk : k < st.nsubs)
+    (hp : (st.sub k).pending = some l) (hc : (st.sub k).cur = some i) {r : RecvEv} (hr : r ∈ st.recvs)
+    (hl : r.l = l) (hs : st.subjOf r.i = st.subjOf i) :
+    r.i < i ∨ ((st.sub k).closed = true ∧ i < r.i) := by
+  obtain ⟨a, b, c, d, e⟩ := h.recvs r hr
+  have hsk := h.subs k hk
+  obtain ⟨c1, c2, c3, c4, c5⟩ := hsk.cur_bd i hc
+  have hsubj : (st.sub r.k).subj = (st.sub k).subj := by
+    have : st.subjOf i = some (st.sub k).subj := by simpa [State.subjOf] using c4
+    rw [d, this] at hs
+    exact Option.some.inj hs
+  rcases Nat.lt_trichotomy r.k k with hlt | heq | hgt
+  · have := h.born_order r.k k hlt hk hsubj
+    have := e.closed this.1
+    left; omega
+  · rw [heq] at e
+    have := e.le_cur i hc
+    left
+    rcases Nat.lt_or_ge r.i i with g | g
+    · exact g
+    · have heq : r.i = i := by omega
+      have := (this.2 heq).2.2
+      rw [hl] at this
+      exact absurd hp this
+  · have := h.born_order k r.k hgt a hsubj.symm
+    have h2 := hsk.closed_pending this.1 l i hp hc
+    have := e.born_le
+    right; exact ⟨‹_ ∧ _›.1, by omega⟩
+
+def ND (st : State) : Prop := st.recvs.Pairwise fun r r' => ¬(r.l = r'.l ∧ r.i = r'.i)
+
+theorem ND.init : ND State.init := by simp [ND, State.init]
+
+theorem ND.prim {st st' : State} (w : WF st) (h : IX st) (n : ND st) (p : Prim st st') : ND st' := by
+  cases p with
+  | call k l i hk hp hc =>
+    unfold ND at n ⊢
+    simp only [upd_recvs]
+    rw [List.pairwise_append]
+    refine ⟨n, by simp, ?_⟩
+    intro r hr r' hr'
+    simp only [List.mem_singleton] at hr'
+    subst hr'
+    rintro ⟨e1, e2⟩
+    simp only at e1 e2
+    have := recv_vs_pending w h hk hp hc hr e1 (by rw [e2])
+    omega
+  | _ => exact n
+
+def OD (st : State) : Prop :=
+  st.stale = 0 → st.recvs.Pairwise fun r r' => r.l = r'.l → st.subjOf r.i = st.subjOf r'.i → r.i < r'.i
+
+theorem OD.init : OD State.init := by simp [OD, State.init]
+
+theorem OD.prim {st st' : State} (w : WF st) (h : IX st) (o : OD st) (p : Prim st st') : OD st' := by
+  cases p with
+  | publish s =>
+    intro hs
+    have := o hs
+    refine List.Pairwise.imp_of_mem ?_ this
+    intro r r' hr hr' hrel e1 e2
+    have b := (h.recvs r hr).2.1
+    have b' := (h.recvs r' hr').2.1
+    have hd := w.disp_le
+    simp only [publish] at e2
+    rw [subjOf_append_lt st _ _ (by omega), subjOf_append_lt st _ _ (by omega)] at e2
+    exact hrel e1 e2
+  | call k l i hk hp hc =>
+    intro hs
+    simp only [upd_stale] at hs
+    have hmem : l ∈ (st.sub k).listeners := by
+      by_cases hm : l ∈ (st.sub k).listeners
+      · exact hm
+      · simp [hm] at hs
+    have hs0 : st.stale = 0 := by simpa [hmem] using hs
+    have := o hs0
+    simp only [upd_recvs]
+    rw [List.pairwise_append]
+    refine ⟨this, by simp, ?_⟩
+    intro r hr r' hr'
+    simp only [List.mem_singleton] at hr'
+    subst hr'
+    intro e1 e2
+    simp only at e1 e2 ⊢
+    rcases recv_vs_pending w h hk hp hc hr e1 e2 with g | ⟨g, _⟩
+    · exact g
+    · have := (w.subok k hk).closed_ls g
+      rw [this] at hmem; cases hmem
+  | dispatch p hs hp => exact o
+  | sendOk k rest hs hlt => exact o
+  | sendDrop k rest hs => exact o
+  | take k i rest hk ha hc hch => exact o
+  | snap k i hk hc hs => exact o
+  | pick k l hk hs hp hl => exact o
+  | finish k i hk hc hs ht hp => exact o
+  | exit k hk ha hcl hc => exact o
+  | regOld l s k ha => exact o
+  | regNew l s ha => exact o
+  | unregNone l s ha => exact o
+  | unregLast l s k ha he => exact o
+  | unregSome l s k ha he => exact o
+
+
+end SigModel.Bus
+
+namespace SigModel.Bus
+open SigModel.Generated.Bus
+
+/-! ### registrations behind every delivery -/
+
+/-- `R` has not been followed by an unregistration of the same listener and subject. -/
+def Stays (st : State) (R : CallEv) : Prop := ∀ U, U ∈ st.unregs → U.l = R.l → U.s = R.s → U.t < R.t
+
+/-- message `p` was published before every unregistration of `(l, R.s)` that came after `R` -/
+def Covers (st : State) (R : CallEv) (p : PubEv) : Prop :=
+  ∀ U, U ∈ st.unregs → U.l = R.l → U.s = R.s → R.t < U.t → p.t < U.t
+
+structure RG (st : State) : Prop where
+  ls_reg : ∀ k, k < st.nsubs → ∀ l, l ∈ (st.sub k).listeners →
+    ∃ R, R ∈ st.regs ∧ R.l = l ∧ R.s = (st.sub k).subj ∧ Stays st R
+  pend_reg : ∀ k, k < st.nsubs → ∀ l i, (st.sub k).pending = some l → (st.sub k).cur = some i →
+    ∃ p R, st.log[i]? = some p ∧ R ∈ st.regs ∧ R.l = l ∧ R.s = (st.sub k).subj ∧ Covers st R p
+  recv_reg : ∀ r, r ∈ st.recvs →
+    ∃ p R, st.log[r.i]? = some p ∧ p.t < r.t ∧ R ∈ st.regs ∧ R.l = r.l ∧ R.s = p.s ∧ R.t < r.t ∧ Covers st R p
+
+theorem RG.init : RG State.init := by
+  constructor <;> simp [State.init]
+
+theorem RG.of_eq {st st' : State} (h : RG st) (e1 : st'.nsubs = st.nsubs) (e2 : st'.sub = st.sub)
+    (e4 : st'.log = st.log) (e5 : st'.regs = st.regs) (e6 : st'.unregs = st.unregs)
+    (e7 : st'.recvs = st.recvs) : RG st' := by
+  obtain ⟨h1, h2, h3⟩ := h
+  constructor
+  all_goals simp only [Stays, Covers, e1, e2, e4, e5, e6, e7]
+  all_goals assumption
+
+/-- A change local to subscriber `k` that keeps the subject, does not add listeners and does not produce
+a new pending callback. -/
+theorem RG.upd {st : State} (h : RG st) {k : Nat} {f : Sub → Sub}
+    (hsubj : (f (st.sub k)).subj = (st.sub k).subj)
+    (hls : ∀ l, l ∈ (f (st.sub k)).listeners → l ∈ (st.sub k).listeners)
+    (hpend : ∀ l i, (f (st.sub k)).pending = some l → (f (st.sub k)).cur = some i →
+      (st.sub k).pending = some l ∧ (st.sub k).cur = some i) : RG (st.upd k f) := by
+  obtain ⟨h1, h2, h3⟩ := h
+  refine ⟨?_, ?_, h3⟩
+  · intro k' hk' l hl
+    simp only [upd_sub, upd_nsubs] at hk' hl ⊢
+    split at hl
+    · rename_i e; subst e
+      rw [if_pos rfl, hsubj]; exact h1 k' hk' l (hls l hl)
+    · rename_i e; rw [if_neg e]; exact h1 k' hk' l hl
+  · intro k' hk' l i hl hi
+    simp only [upd_sub, upd_nsubs] at hk' hl hi ⊢
+    split at hl
+    · rename_i e; subst e
+      rw [if_pos rfl] at hi ⊢
+      rw [hsubj]
+      obtain ⟨a, b⟩ := hpend l i hl hi
+      exact h2 k' hk' l i a b
+    · rename_i e; rw [if_neg e] at hi ⊢; exact h2 k' hk' l i hl hi
+
+/-- appending a registration record -/
+theorem RG.addReg {st : State} (h : RG st) (l s : Nat) : RG (stampReg st l s) := by
+  obtain ⟨h1, h2, h3⟩ := h
+  refine ⟨?_, ?_, ?_⟩
+  · intro k hk l' hl'
+    obtain ⟨R, a, b, c, d⟩ := h1 k hk l' hl'
+    exact ⟨R, by simp [stampReg, a], b, c, d⟩
+  · intro k hk l' i hl' hi
+    obtain ⟨p, R, a, b, c, d, e⟩ := h2 k hk l' i hl' hi
+    exact ⟨p, R, a, by simp [stampReg, b], c, d, e⟩
+  · intro r hr
+    obtain ⟨p, R, a, b, c, d, e, f, g⟩ := h3 r hr
+    exact ⟨p, R, a, b, by simp [stampReg, c], d, e, f, g⟩
+
+/-- appending an unregistration record for `(l, s)` when no listener set of subject `s` contains `l` -/
+theorem RG.addUnreg {st : State} (t : TM st) (h : RG st) (l s : Nat)
+    (hno : ∀ k, k < st.nsubs → (st.sub k).subj = s → l ∉ (st.sub k).listeners) : RG (stampUnreg st l s) := by
+  obtain ⟨h1, h2, h3⟩ := h
+  have cov : ∀ R p, p ∈ st.log → Covers st R p → Covers (stampUnreg st l s) R p := by
+    intro R p hp hc U hU e1 e2 e3
+    simp only [stampUnreg, List.mem_append, List.mem_singleton] at hU
+    rcases hU with hU | rfl
+    · exact hc U hU e1 e2 e3
+    · exact t.log_lt p hp
+  refine ⟨?_, ?_, ?_⟩
+  · intro k hk l' hl'
+    obtain ⟨R, a, b, c, d⟩ := h1 k hk l' hl'
+    refine ⟨R, a, b, c, ?_⟩
+    intro U hU e1 e2
+    simp only [stampUnreg, List.mem_append, List.mem_singleton] at hU
+    rcases hU with hU | rfl
+    · exact d U hU e1 e2
+    · simp only at e1 e2
+      exfalso
+      apply hno k hk (by rw [← c, e2])
+      rw [e1, b]; exact hl'
+  · intro k hk l' i hl' hi
+    obtain ⟨p, R, a, b, c, d, e⟩ := h2 k hk l' i hl' hi
+    exact ⟨p, R, a, b, c, d, cov R p (List.mem_of_getElem? a) e⟩
+  · intro r hr
+    obtain ⟨p, R, a, b, c, d, e, f, g⟩ := h3 r hr
+    exact ⟨p, R, a, b, c, d, e, f, cov R p (List.mem_of_getElem? a) g⟩
+
+
+/-- subscribers of a subject other than the active one have no listeners -/
+theorem WF.no_listeners {st : State} (w : WF st) {k : Nat} (hk : k < st.nsubs)
+    (hna : st.active (st.sub k).subj ≠ some k) : (st.sub k).listeners = [] := by
+  cases hc : (st.sub k).closed with
+  | true => exact (w.subok k hk).closed_ls hc
+  | false => exact absurd (w.open_act k hk hc) hna
+
+theorem RG.prim {st st' : State} (w : WF st) (t : TM st) (x : IX st) (h : RG st) (p : Prim st st') : RG st' := by
+  cases p with
+  | publish s =>
+    obtain ⟨h1, h2, h3⟩ := h
+    have look : ∀ (i : Nat) (p : PubEv), st.log[i]? = some p → (publish st s).log[i]? = some p := by
+      intro i p hp
+      have : i < st.log.length := by
+        rcases Nat.lt_or_ge i st.log.length with g | g
+        · exact g
+        · rw [List.getElem?_eq_none g] at hp; cases hp
+      simp only [publish]
+      rw [List.getElem?_append_left this]; exact hp
+    refine ⟨h1, ?_, ?_⟩
+    · intro k hk l i hl hi
+      obtain ⟨p, R, a, b, c, d, e⟩ := h2 k hk l i hl hi
+      exact ⟨p, R, look i p a, b, c, d, e⟩
+    · intro r hr
+      obtain ⟨p, R, a, b, c, d, e, f, g⟩ := h3 r hr
+      exact ⟨p, R, look _ p a, b, c, d, e, f, g⟩
+  | dispatch p hs hp => exact h.of_eq rfl rfl rfl rfl rfl rfl
+  | sendDrop k rest hs => exact h.of_eq rfl rfl rfl rfl rfl rfl
+  | sendOk k rest hs hlt =>
+    have h' : RG ({ st with sending := rest } : State) := h.of_eq rfl rfl rfl rfl rfl rfl
+    exact h'.upd rfl (fun l hl => hl) (fun l i hl hi => ⟨hl, hi⟩)
+  | take k i rest hk ha hc hch =>
+    exact h.upd rfl (fun l hl => hl) (fun l i hl hi => by cases hl)
+  | snap k i hk hc hs =>
+    exact h.upd rfl (fun l hl => hl) (fun l i hl hi => ⟨hl, hi⟩)
+  | pick k l hk hs hp hl =>
+    obtain ⟨h1, h2, h3⟩ := h
+    refine ⟨?_, ?_, h3⟩
+    · intro k' hk' l' hl'
+      simp only [upd_sub, upd_nsubs] at hk' hl' ⊢
+      split at hl'
+      · rename_i e; subst e; rw [if_pos rfl]; exact h1 k' hk' l' hl'
+      · rename_i e; rw [if_neg e]; exact h1 k' hk' l' hl'
+    · intro k' hk' l' i hl' hi
+      simp only [upd_sub, upd_nsubs] at hk' hl' hi ⊢
+      split at hl'
+      · rename_i e; subst e
+        rw [if_pos rfl] at hi ⊢
+        simp only at hl' hi ⊢
+        split at hl'
+        · rename_i hmem
+          cases hl'
+          obtain ⟨R, a, b, c, d⟩ := h1 k' hk' l hmem
+          obtain ⟨_, _, _, c4, _⟩ := (x.subs k' hk').cur_bd i hi
+          cases hp' : st.log[i]? with
+          | none => simp [hp'] at c4
+          | some p =>
+            refine ⟨p, R, hp', a, b, c, ?_⟩
+            intro U hU e1 e2 e3
+            have := d U hU e1 e2
+            omega
+        · cases hl'
+      · rename_i e; rw [if_neg e] at hi ⊢; exact h2 k' hk' l' i hl' hi
+  | call k l i hk hp hc =>
+    obtain ⟨p, R, a, b, c, d, e⟩ := h.pend_reg k hk l i hp hc
+    obtain ⟨_, _, _, c4, _⟩ := (x.subs k hk).cur_bd i hc
+    have h' : RG ({ st with
+        recvs := st.recvs ++ [{ l := l, i := i, t := st.clk, k := k }]
+        clk := st.clk + 1
+        stale := if l ∈ (st.sub k).listeners then st.stale else st.stale + 1 } : State) := by
+      obtain ⟨h1, h2, h3⟩ := h
+      refine ⟨h1, h2, ?_⟩
+      intro r hr
+      simp only [List.mem_append, List.mem_singleton] at hr
+      rcases hr with hr | rfl
+      · exact h3 r hr
+      · refine ⟨p, R, a, t.log_lt p (List.mem_of_getElem? a), b, c, ?_, t.regs_lt R b, e⟩
+        rw [a] at c4
+        simp only [Option.map_some, Option.some.injEq] at c4
+        rw [d, c4]
+    exact h'.upd rfl (fun l hl => hl) (fun l i hl hi => by cases hl)
+  | finish k i hk hc hs ht hp =>
+    exact h.upd rfl (fun l hl => hl) (fun l i hl hi => by cases hi)
+  | exit k hk ha hcl hc =>
+    exact h.upd rfl (fun l hl => hl) (fun l i hl hi => ⟨hl, hi⟩)
+  | regOld l s k ha =>
+    have hk := w.act_lt s k ha
+    have hact := w.act_subj s k ha
+    obtain ⟨h1, h2, h3⟩ := h
+    have hnew : Stays (stampReg (regOld st l k) l s) { l := l, s := s, t := st.clk } := by
+      intro U hU _ _; exact t.unregs_lt U hU
+    refine ⟨?_, ?_, ?_⟩
+    · intro k' hk' l' hl'
+      simp only [stampReg, regOld, upd_sub, upd_nsubs] at hk' hl' ⊢
+      by_cases e : k' = k
+      · subst e
+        rw [if_pos rfl] at hl' ⊢
+        have hsub : (if l ∈ (st.sub k').listeners then st.sub k'
+            else { st.sub k' with listeners := (st.sub k').listeners ++ [l] }).subj = (st.sub k').subj := by
+          split <;> rfl
+        rw [hsub]
+        by_cases hm : l' ∈ (st.sub k').listeners
+        · obtain ⟨R, a, b, c, d⟩ := h1 k' hk' l' hm
+          exact ⟨R, by simp [a], b, c, d⟩
+        · have : l' = l := by
+            split at hl'
+            · exact absurd hl' hm
+            · simp only [List.mem_append, List.mem_singleton] at hl'
+              rcases hl' with g | g
+              · exact absurd g hm
+              · exact g
+          subst this
+          exact ⟨{ l := l', s := s, t := st.clk }, by simp, rfl, hact.1.symm, hnew⟩
+      · rw [if_neg e] at hl' ⊢
+        obtain ⟨R, a, b, c, d⟩ := h1 k' hk' l' hl'
+        exact ⟨R, by simp [a], b, c, d⟩
+    · intro k' hk' l' i hl' hi
+      simp only [stampReg, regOld, upd_sub, upd_nsubs] at hk' hl' hi ⊢
+      have key : ∃ p R, st.log[i]? = some p ∧ R ∈ st.regs ∧ R.l = l' ∧ R.s = (st.sub k').subj ∧ Covers st R p := by
+        by_cases e : k' = k
+        · subst e
+          rw [if_pos rfl] at hl' hi
+          split at hl'
+          · rename_i hm; rw [if_pos hm] at hi; exact h2 k' hk' l' i hl' hi
+          · rename_i hm; rw [if_neg hm] at hi; exact h2 k' hk' l' i hl' hi
+        · rw [if_neg e] at hl' hi; exact h2 k' hk' l' i hl' hi
+      obtain ⟨p, R, a, b, c, d, e⟩ := key
+      refine ⟨p, R, a, by simp [b], c, ?_, e⟩
+      rw [d]
+      split
+      · split <;> rfl
+      · rfl
+    · intro r hr
+      obtain ⟨p, R, a, b, c, d, e, f, g⟩ := h3 r hr
+      exact ⟨p, R, a, b, by simp [stampReg, regOld, c], d, e, f, g⟩
+  | regNew l s ha =>
+    obtain ⟨h1, h2, h3⟩ := h
+    have hnew : Stays (stampReg (regNew st l s) l s) { l := l, s := s, t := st.clk } := by
+      intro U hU _ _; exact t.unregs_lt U hU
+    refine ⟨?_, ?_, ?_⟩
+    · intro k' hk' l' hl'
+      simp only [stampReg, regNew] at hk' hl' ⊢
+      by_cases e : k' = st.nsubs
+      · subst e
+        rw [if_pos rfl] at hl' ⊢
+        simp only [List.mem_singleton] at hl'
+        subst hl'
+        exact ⟨{ l := l', s := s, t := st.clk }, by simp, rfl, rfl, hnew⟩
+      · rw [if_neg e] at hl' ⊢
+        obtain ⟨R, a, b, c, d⟩ := h1 k' (by omega) l' hl'
+        exact ⟨R, by simp [a], b, c, d⟩
+    · intro k' hk' l' i hl' hi
+      simp only [stampReg, regNew] at hk' hl' hi ⊢
+      by_cases e : k' = st.nsubs
+      · subst e; rw [if_pos rfl] at hl'; cases hl'
+      · rw [if_neg e] at hl' hi ⊢
+        obtain ⟨p, R, a, b, c, d, e⟩ := h2 k' (by omega) l' i hl' hi
+        exact ⟨p, R, a, by simp [b], c, d, e⟩
+    · intro r hr
+      obtain ⟨p, R, a, b, c, d, e, f, g⟩ := h3 r hr
+      exact ⟨p, R, a, b, by simp [stampReg, regNew, c], d, e, f, g⟩
+  | unregNone l s ha =>
+    refine h.addUnreg t l s ?_
+    intro k hk hs
+    rw [w.no_listeners hk (by rw [hs, ha]; simp)]
+    simp
+  | unregLast l s k ha he =>
+    have hk := w.act_lt s k ha
+    have hact := w.act_subj s k ha
+    have h' : RG (unregLast st s k) := by
+      refine RG.of_eq (st := st.upd k fun b => { b with listeners := [], closed := true, closedAt := st.disp })
+        ?_ rfl rfl rfl rfl rfl rfl
+      exact h.upd rfl (fun l hl => by cases hl) (fun l i hl hi => ⟨hl, hi⟩)
+    refine RG.addUnreg (st := unregLast st s k) (t.of_eq rfl rfl rfl rfl rfl) h' l s ?_
+    intro k' hk' hs
+    simp only [unregLast, upd_sub, upd_nsubs] at hk' hs ⊢
+    by_cases e : k' = k
+    · rw [if_pos e]; simp
+    · rw [if_neg e] at hs ⊢
+      rw [w.no_listeners hk' (by rw [hs, ha]; simp; exact fun g => e g.symm)]
+      simp
+  | unregSome l s k ha he =>
+    have hk := w.act_lt s k ha
+    have hact := w.act_subj s k ha
+    have h' : RG (unregSome st l k) :=
+      h.upd rfl (fun l' hl' => List.mem_of_mem_erase hl') (fun l i hl hi => ⟨hl, hi⟩)
+    refine RG.addUnreg (st := unregSome st l k) (t.of_eq rfl rfl rfl rfl rfl) h' l s ?_
+    intro k' hk' hs
+    simp only [unregSome, upd_sub, upd_nsubs] at hk' hs ⊢
+    by_cases e : k' = k
+    · rw [if_pos e]
+      subst e
+      exact List.Nodup.not_mem_erase (w.subok k' hk').ls_nodup
+    · rw [if_neg e] at hs ⊢
+      rw [w.no_listeners hk' (by rw [hs, ha]; simp; exact fun g => e g.symm)]
+      simp
+
+
+end SigModel.Bus
